@@ -157,6 +157,13 @@ def run(ctx):
                                   fn=disp.path, file=disp.file, line=disp.blocks[bi]["line"])
     if not badp:
         ctx.ok(rule2, {"pushes": len(pushes), "enclosing_loops": "RankRange / SuitRange only"}, sample=True)
+    # the text of a token must determine its weight (suffix omitted only for exactly 1.0, shortest round-tripping decimal
+    # otherwise): else two emitted tokens can look mergeable although their weights differ — shared with C06
+    try:
+        from rules import c06, tokmodel
+        c06.rule_tokens(ctx, F, tokmodel.get(F), prefix="C17", only_weight=True)
+    except Unrecognised as e:
+        ctx.unrecognised(e.rule if e.rule.startswith("C17") else "C17." + e.rule.split(".", 1)[-1], e.msg, e.fn, e.line)
     if ctx.tier == "thorough":
         from sa import xref
         from rules import selftest
